@@ -251,6 +251,8 @@ FIXED_PROGRAMS = [
     ('bulk_after_select', 'optimistic', [['select'], ['bulk_delete', 3], ['update_T', 1, 72]]),
     ('bulk_only', 'optimistic', [['bulk_delete', 3]]),
     ('bulk_then_dup', 'optimistic', [['bulk_delete', 3], ['raw_insert', 1, 99]]),
+    ('db_insert_first', 'optimistic', [['db_insert', 40, 1], ['create_T', 73]]),
+    ('db_insert_only', 'optimistic', [['db_insert', 41, 1]]),
     ('read_only', 'optimistic', [['select'], ['raw_select']]),
     ('empty', 'immediate', []),
 ]
@@ -350,6 +352,7 @@ def run_case(template, workdir, case):
             else: r['own'] = r['visible']
         rec.append(r)
 
+    tr.before_call.append(lambda ev: attribute(ev))
     tr.after_call.append(after)
     tr.set_faults([fault_of(base, f) for f in case['faults']])
     st = {}
@@ -365,7 +368,8 @@ def run_case(template, workdir, case):
     out = {'pre': pre, 'exc': type(exc).__name__ if exc is not None else None, 'exc_text': repr(exc)[:300] if exc is not None else None,
            'rollback_op': bool(st.get('rollback')), 'swallowed': st.get('swallowed', 0),
            'events': [{'call': e['call'], 'kind': e['kind'], 'con': e['con'], 'outcome': e['outcome'], 'injected': e['injected'],
-                       'sql': (e['sql'] or '')[:60]} for e in events if e['i'] is not None],
+                       'sql': (e['sql'] or '')[:60], 'entry': e.get('entry'), 'flush_id': e.get('flush_id'), 'in_commit': e.get('in_commit'), 'locking': e.get('locking'),
+                       'stack': e.get('stack')} for e in events if e['i'] is not None],
            'rec': rec}
     moments = {f[0]: f[2] for f in case['faults']}
     for i, e in enumerate(out['events']):
@@ -479,6 +483,78 @@ def _child_session(template, path, case, kill):
             for op in case['program']: run_op(E, op, st)
     except Exception:
         pass
+
+
+# ---------------------------------------------------------------------------------------------------------------------
+# write entry points: which function of pony/orm/core.py sends each statement (Python stack at the DB-API call)
+# ---------------------------------------------------------------------------------------------------------------------
+
+ENTRY_BY_QUALNAME = {'Database.execute': 'dbExecute', 'Database.insert': 'dbInsert', 'Entity._save_created_': 'saveCreated',
+                     'Entity._save_updated_': 'saveUpdated', 'Entity._save_deleted_': 'saveDeleted', 'Set.remove_m2m': 'm2mRemove',
+                     'Set.add_m2m': 'm2mAdd', 'Query.delete': 'bulkDelete'}
+COMMIT_FRAMES = ('commit', 'SessionCache.flush_and_commit', 'Database.commit', 'DBSessionContextManager._commit_or_rollback')
+
+
+def attribute(ev):
+    """annotate a DB-API call with the innermost write entry point on the stack, the enclosing SessionCache.flush call (id)
+    and whether a commit is in progress"""
+    if ev['i'] is None or ev['call'] not in ('execute', 'executemany'): return
+    f = sys._getframe(1)
+    chain = []
+    while f is not None:
+        co = f.f_code
+        if co.co_filename.endswith(os.path.join('pony', 'orm', 'core.py')):
+            q = getattr(co, 'co_qualname', co.co_name)
+            chain.append(q)
+            if ev.get('entry') is None and q in ENTRY_BY_QUALNAME: ev['entry'] = ENTRY_BY_QUALNAME[q]
+            if q == 'SessionCache.flush' and ev.get('flush_id') is None: ev['flush_id'] = id(f)
+            if q in COMMIT_FRAMES: ev['in_commit'] = True
+            if q == 'EntityMeta._find_in_db_' and f.f_locals.get('for_update'): ev['locking'] = True
+            if q == 'Query._actual_fetch' and getattr(f.f_locals.get('query'), '_for_update', False): ev['locking'] = True
+        f = f.f_back
+    ev['stack'] = chain[:6]
+
+
+def emit_request(case, obs):
+    """the fault-free real run as a program of Model/TxnEmit.lean (ops reconstructed from the calls and their stacks) and the
+    projection of the real calls the model's output is compared with; None when the run is not fault-free"""
+    if case['faults'] or obs['exc'] is not None or obs['swallowed'] or obs['rollback_op']: return None
+    if any(e['outcome'] != 'ok' for e in obs['events']): return None
+    prog, real = [], []
+    cur = None                       # open flush group: [flush_id, in_commit, entries]
+    def close_group():
+        nonlocal cur
+        if cur is not None:
+            prog.append([['commit' if cur[1] else 'flush', cur[2]], False]); cur = None
+    for e in obs['events']:
+        call, kind = e['call'], e['kind']
+        if call == 'cursor' or (kind or '').startswith('pragma'): continue
+        if call == 'connect': real.append(['connect', True]); continue
+        if call in ('rollback', 'close'): real.append([call, True]); continue
+        if call == 'commit':
+            real.append(['commit', True])
+            if cur is not None and cur[1]: close_group()
+            else:
+                close_group(); prog.append([['commit', []], False])
+            continue
+        if kind == 'begin': real.append(['begin', True]); continue
+        write = call == 'executemany' or kind in ('insert', 'update', 'delete')
+        real.append(['write' if write else 'read', True])
+        if not write:
+            if e['flush_id'] is None: close_group(); prog.append([['lockQuery' if e.get('locking') else 'query'], False])
+            else:
+                return None          # a query from a hook inside flush: not an op of the model
+            continue
+        if e['entry'] is None: return 'unknown-entry'
+        if e['flush_id'] is not None:
+            if cur is None or cur[0] != e['flush_id']:
+                close_group(); cur = [e['flush_id'], bool(e['in_commit']), []]
+            cur[2].append(e['entry'])
+        else:
+            close_group(); prog.append([['direct', e['entry']], False])
+    close_group()
+    si = SESSION_OPTS[case['opts']] != {}
+    return {'op': 'emit', 'si': si, 'pool': bool(case['warm']), 'bodyRaises': False, 'faults': [], 'prog': prog}, real
 
 
 # ---------------------------------------------------------------------------------------------------------------------
@@ -815,6 +891,38 @@ def evaluate(ctx, case, obs, model):
     return found
 
 
+def check_entry_points(ctx, cases, res):
+    """(1) every write statement the real code sends comes from a function of the entry-point table;
+       (2) for fault-free runs the emitter of Model/TxnEmit.lean, instantiated with the table regenerated from the source,
+           sends the same connect / read / begin / write / commit / rollback sequence as the real session"""
+    reqs, meta = [], []
+    for c in cases:
+        obs = res[c['id']]
+        for e in obs['events']:
+            write = e['call'] == 'executemany' or e['kind'] in ('insert', 'update', 'delete')
+            if write and e['call'] in ('execute', 'executemany'):
+                ctx.count('entry:' + str(e['entry']) + (':in-flush' if e['flush_id'] is not None else ':direct'))
+                if e['entry'] is None:
+                    ctx.divergence('a write statement is sent by a function that is not in the entry-point table of gen_txnentry.py', case_json(c),
+                                   impl={'sql': e['sql'], 'stack': e['stack']})
+                elif e['entry'] in ('m2mRemove', 'm2mAdd') and e['flush_id'] is None:
+                    ctx.divergence('a many-to-many statement is sent outside SessionCache.flush', case_json(c), impl={'sql': e['sql'], 'stack': e['stack']})
+        r = emit_request(c, obs)
+        if r is None or r == 'unknown-entry': continue
+        reqs.append(r[0]); meta.append((c, r[1]))
+    if not reqs or not ctx.driver.ok: return
+    outs = ctx.driver('C17', reqs)
+    for (c, real), rq, m in zip(meta, reqs, outs):
+        ctx.count('emit-compared')
+        if 'driver_error' in m:
+            ctx.divergence('driver error (emit)', case_json(c), model=m); continue
+        if m['events'] != real:
+            ctx.divergence('the session emitter of the model (entry-point table from the source) and the real session send different calls',
+                           case_json(c), model={'events': m['events'], 'prog': rq['prog'], 'table': m['table']}, impl=real)
+    if outs and 'table' in outs[0]:
+        ctx.extra['entry_point_table'] = dict(outs[0]['table'], flushSetsImmediate=outs[0]['flushSetsImmediate'])
+
+
 def stats(ctx, case, obs):
     ctx.count('opts:' + case['opts']); ctx.count('pool:' + ('warm' if case['warm'] else 'fresh')); ctx.count('sql-caches:' + ('warm' if case.get('sqlwarm') else 'cold'))
     ctx.count('session-outcome:' + (obs['exc'] or 'ok'))
@@ -918,6 +1026,7 @@ def _run(ctx, workdir):
                                    'events': res[c['id']]['model_events']} for c in inproc])
         models = {c['id']: m for c, m in zip(inproc, outs)}
     ctx.extra['driver_s'] = round(time.time() - tm, 1)
+    check_entry_points(ctx, inproc, res)
 
     # ---- 4. evaluate ------------------------------------------------------------------------------------------------
     shrunk = 0
